@@ -19,12 +19,29 @@ import (
 // that name was (syntactically and definitely) assigned before the inner
 // function literal was evaluated.
 func UseBeforeDef(trees ...node.Type) bool {
-	a := &duAnalyzer{}
+	amb, _ := AnalyzeDefUse(trees...)
+	return amb
+}
+
+// AnalyzeDefUse is UseBeforeDef plus the names whose ambiguity is decided at run time: a read of x that follows an
+// assignment of x in the text of the function but is not definitely reached through one (x assigned in one branch,
+// or in a loop body that may run zero times). When no assignment was executed in the activation the lexical rule
+// reads the function's own, still empty variable (nil); the dynamic rule looks outward. The two agree exactly when
+// the outward lookup gives nil, which the interpreter checks at that read (Interp.Deferred, flag D-use-before-def).
+func AnalyzeDefUse(trees ...node.Type) (ambiguous bool, deferred map[string]bool) {
+	a := &duAnalyzer{deferred: map[string]bool{}}
 	for _, t := range trees {
 		st := &duState{top: true, S: set{}, M: set{}, Y: set{}}
 		a.visit(t, st)
 	}
-	return a.ambiguous
+	return a.ambiguous, a.deferred
+}
+
+// AssignedNames lists the names a function body assigns (for variables included), not entering inner functions.
+func AssignedNames(body node.Type) map[string]bool {
+	out := set{}
+	assigned(body, out)
+	return out
 }
 
 type set map[string]bool
@@ -63,7 +80,10 @@ type duState struct {
 	all                set // every name the function assigns anywhere, parameters included
 }
 
-type duAnalyzer struct{ ambiguous bool }
+type duAnalyzer struct {
+	ambiguous bool
+	deferred  map[string]bool
+}
 
 func (a *duAnalyzer) read(x string, st *duState) {
 	if st.top {
@@ -77,6 +97,9 @@ func (a *duAnalyzer) read(x string, st *duState) {
 		if st.encAll != nil && st.encAll[x] && !(st.encS[x] && st.encM[x]) {
 			a.ambiguous = true
 		}
+	case inS && !inM:
+		// assigned earlier in the text, not on every path: decided at run time
+		a.deferred[x] = true
 	default:
 		a.ambiguous = true
 	}
